@@ -120,9 +120,24 @@ class Spy:
 
         def get(basename):
             def ex(file_bytes, path=None):
+                # Member extractors are generators: their failures surface while the archive code ITERATES them.
+                # Stub failure modes chosen by the member name; each yields its result first, so the model's `extract`
+                # oracle (= what was yielded before the failure) is the one call record, and the failure itself must
+                # stay inside the member:
+                #   *rtboom*  then raises a RuntimeError subclass
+                #   *encboom* then raises ExtractionFileEncryptedError (a password-protected document)
+                #   *boom*    then raises ValueError
+                low = basename.lower()
                 tok = (basename, file_bytes.read(), path)
                 self.calls.append(tok)
                 yield tok
+                if "rtboom" in low:
+                    raise RecursionError("stub extractor failure (RuntimeError subclass)")
+                if "encboom" in low:
+                    from sharepoint2text.parsing.exceptions import ExtractionFileEncryptedError
+                    raise ExtractionFileEncryptedError("stub: member is password protected")
+                if "boom" in low:
+                    raise ValueError("stub extractor failure after the first result")
             return ex
         ae._get_file_extractor_cached = get
         return self
@@ -205,8 +220,11 @@ def gen_doc(rng, ext):
     return t.encode("utf-8")
 
 
+EMPTY_ZIP = b"PK\x05\x06" + b"\x00" * 18
+BROKEN_FIXTURES: list = []   # truncated real documents, filled by run()
 GOOD_EXT = [".txt", ".md", ".csv", ".json", ".html", ".tsv", ".TXT", ".Json", ".htm"]
-STEMS = ["a", "b", "report", "my.report", "notes 1", "größe", "日本", "x-y_z", "README", "data.v2"]
+STEMS = ["a", "b", "report", "my.report", "notes 1", "größe", "日本", "x-y_z", "README", "data.v2",
+         "Q1一览", "Ā名", "a\u3000b", "Ѐx", "Ω\u0600z", "rtboom", "encboom", "kaboom", "x boom y"]
 DIRS = ["", "", "", "sub/", "sub/deeper/", "Dir With Space/"]
 
 
@@ -235,6 +253,14 @@ def gen_members(rng, nmax, fixtures=None, allow_empty=True):
         elif r < 0.50 and fixtures:
             fx = rng.choice(fixtures)
             name, kind, data = d + rng.choice(STEMS) + os.path.splitext(fx[0])[1], "data", fx[1]
+        elif r < 0.58:
+            # a supported-type member its own extractor cannot read (damaged / truncated / not the format at all):
+            # the failure happens inside the member's extractor, not in the container
+            ext = rng.choice([".docx", ".xlsx", ".pptx", ".pdf", ".odt", ".ods", ".epub", ".doc", ".xls", ".ppt", ".msg", ".rtf", ".eml"])
+            junk = bytes(rng.randrange(256) for _ in range(rng.randint(1, 60)))
+            data = rng.choice([junk, b"PK\x03\x04" + junk, b"%PDF-1.4\n" + junk, b"\xd0\xcf\x11\xe0\xa1\xb1\x1a\xe1" + junk,
+                               EMPTY_ZIP, (BROKEN_FIXTURES and rng.choice(BROKEN_FIXTURES)) or junk])
+            name, kind = d + rng.choice(STEMS[:10]) + "-bad" + ext, "data"
         else:
             ext = rng.choice(GOOD_EXT)
             name, kind, data = d + rng.choice(STEMS) + ext, "data", gen_doc(rng, ext)
@@ -672,7 +698,8 @@ def run(ctx):
     ctx.rule = ("archives from zipfile (stored/deflated), tarfile (plain/gz/bz2/xz) and the harness's 7z writer "
                 "(copy/LZMA/LZMA2/mixed; solid, one folder per file, random folder cuts; 7-Zip-style and full "
                 "SubStreamsInfo; plain and encoded headers) over 0..N generated members with directories, empty files, "
-                "hidden/unsupported/nested-archive members interleaved, plus one-member-corrupted variants and "
+                "hidden/unsupported/nested-archive members, damaged documents (member extractor fails) and entries sharing a name "
+                "interleaved, names from several Unicode blocks, multi-stream gz/bz2/xz layers, plus one-member-corrupted variants and "
                 "non-standard 7z headers; non-trivial = at least 2 members")
     ctx.trusted += [
         "G-dump: tools/props/c10.py prints MAGIC_SIGNATURES, TAR_MAGIC*, NESTED_ARCHIVE_EXTENSIONS, size limits and the "
@@ -708,6 +735,7 @@ def run(ctx):
     # which revision does the tree under test implement?  The model follows the REPAIRED code (rev_new); the
     # correspondence therefore breaks on an unrepaired tree and the property oracle below names the input.
     fixtures = load_fixtures()
+    BROKEN_FIXTURES[:] = [fx[1][:rng.randint(40, 300)] for fx in fixtures] + [fx[1][:150] + fx[1][-150:] for fx in fixtures]
     cases7, info7 = [], []
     casesz, infoz = [], []
     casest, infot = [], []
@@ -792,6 +820,19 @@ def run(ctx):
                       "a corrupt 7z member affects other members", "7z", desc, members, arch, "c.7z",
                       empties_expected=False, skip_idx=datas[k])
 
+
+    # ================================================================= member names outside the BMP (UTF-16 surrogate pairs)
+    for nm in ("\U0001F600.txt", "sub/r\U0001F4C4port.md", "\U00020000\u4e00.csv"):
+        members = [("a.txt", "data", b"first member\n"), (nm, "data", b"named outside the BMP\n"), ("c.md", "data", b"# last\n")]
+        ctx.case(("nonbmp", nm), True, kind="names:non-bmp")
+        for kind in ("copy", "lzma2"):
+            arch, H, _ = Z.pack(members, [3] if kind == "copy" else [1, 1, 1], kind)
+            check_members(ctx, "7z-non-bmp-member-name", "7z member name with a character outside the BMP", "7z",
+                          {"coder": kind, "name": nm}, members, arch, "n.7z", empties_expected=False)
+        check_members(ctx, "zip-members:non-bmp-name", "ZIP member name with a character outside the BMP", "zip",
+                      {"name": nm}, members, write_zip(members, zipfile.ZIP_DEFLATED), "n.zip")
+        check_members(ctx, "tar-members:non-bmp-name", "TAR member name with a character outside the BMP", "tar",
+                      {"name": nm}, members, write_tar(members, "gz"), "n.tar.gz")
 
     # ================================================================= 7z byte-level header parser (model: C10/Parse.v)
     casesp, infop = [], []
@@ -918,6 +959,18 @@ def run(ctx):
         if rng.random() < 0.3:
             withsym.insert(rng.randint(0, len(withsym)), ("link%d.txt" % i, "symlink", b""))
         arch = write_tar(withsym, comp, fmt)
+        nstreams = 1
+        if comp and rng.random() < 0.4:
+            # the compression layer as several streams back to back (pbzip2, bgzip, `gzip -c more >> x.tar.gz`,
+            # xz per-chunk): the plain TAR cut at arbitrary byte positions, every piece compressed on its own
+            plain = write_tar(withsym, "", fmt)
+            cuts = sorted(rng.sample(range(1, len(plain)), rng.randint(1, 3)))
+            if rng.random() < 0.4:   # cuts on member (block) boundaries as well
+                cuts = sorted(set(c - c % 512 for c in cuts if c >= 512)) or cuts
+            pieces = [plain[a:b] for a, b in zip([0] + cuts, cuts + [len(plain)])]
+            cfun = {"gz": gzip.compress, "bz2": bz2.compress, "xz": lambda b: lzma.compress(b, format=lzma.FORMAT_XZ)}[comp]
+            arch = b"".join(cfun(p) for p in pieces)
+            nstreams = len(pieces)
         corrupt = None
         names_once = [m[0] for m in members]
         datas = [j for j, m in enumerate(members) if m[1] == "data" and len(m[2]) >= 4 and names_once.count(m[0]) == 1]
@@ -957,12 +1010,15 @@ def run(ctx):
                 topen, coq_opt(apath, coq_str), c_names([m[0] for m in withsym]), c_calls(list(out)), c_term(t)))
             infot.append((comp, corrupt, [m[0] for m in withsym]))
         ctx.case(("tar", comp, fmt, corrupt, [(m[0], m[1], len(m[2])) for m in withsym]), len(members) >= 2,
-                 kind=f"tar:{comp or 'plain'}" + (":corrupt" if corrupt is not None else "") + (":dupnames" if ndup else ""))
+                 kind=f"tar:{comp or 'plain'}" + (":corrupt" if corrupt is not None else "") + (":dupnames" if ndup else "")
+                 + (":multistream" if nstreams > 1 else ""))
         key = f"tar-duplicate-member-names:{comp or 'plain'}" if ndup else f"tar-members:{comp or 'plain'}"
+        if nstreams > 1:
+            key = f"tar-multi-stream-compression:{comp}"
         if shadow:
             key = "tar-magic-shadowed-by-first-member-name"
         check_members(ctx, key if corrupt is None else "tar-corrupt-member", "TAR member does not come out as itself",
-                      "tar", {"compression": comp or "plain", "format": fmt}, members, arch, apath or "t.tar", skip_idx=corrupt)
+                      "tar", {"compression": comp or "plain", "format": fmt, "compression_streams": nstreams}, members, arch, apath or "t.tar", skip_idx=corrupt)
     for i in range(ctx.n(3, 20)):
         members = gen_members(rng, 4, fixtures=fixtures)
         comp = rng.choice(["", "gz", "xz"])
